@@ -29,6 +29,25 @@ ODD_NAMES = ('my_var', 'myVar', 'x1', 'x_1', 'a_', 'a', 'a__b', 'a_b', 'aB', 'ab
 RELATED_PAIRS = (('my_var', 'myVar'), ('x1', 'x_1'), ('a_', 'a'), ('a__b', 'a_b'), ('a_b', 'aB'), ('aB', 'ab'), ('A', 'a'),
                  ('_x', 'x'), ('x_', 'x'), ('k_v', 'kV'), ('k_1', 'k1'), ('my_var_', 'my_var'), ('myVar', 'myvar'),
                  ('MyVar', 'myVar'), ('y__', 'y_'), ('_', '_1'), ('len', 'len_'), ('v', 'V'), ('it_em', 'itEm'))
+# ... and the vocabulary a Python implementation uses for its OWN parameters / attributes / locals: a name written in an
+# expression that travels through `**kwargs`, `setattr`, a `dict(...)` call, a format string or `locals()` of the host
+# collides there with the helper's own names (`f(value => 1)` -> "got multiple values for argument 'value'")
+HOST_NAMES = ('value', 'values', 'receiver', 'context', 'engine', 'self', 'cls', 'args', 'kwargs', 'func', 'function',
+              'name', 'data', 'key', 'default', 'item', 'obj', 'sender', 'expr', 'expression', 'options', 'result',
+              'lambda_', 'type_', 'id_', 'len_', 'list_', 'dict_', 'set_', 'str_', 'int_', 'bool_', 'None_', 'true_',
+              'not_', 'in_', 'and_', 'or_',
+              # (the bare words true / false / null / not / in / and / or are tokens of their own, no keyword spells them)
+              'this', 'it', 'fn', 'cb', 'kw', 'param', 'parameter', 'params', 'index', 'count', 'source', 'target',
+              'parent', 'child', 'limit', 'memo', 'cache', 'spec', 'method', 'operator', 'op', 'payload', 'delegate',
+              'instance', 'attr', 'items', 'keys', 'get', 'type', 'id', 'iter', 'next', 'callable', 'lambda', 'None',
+              'True', 'False', 'def', 'return', 'yield', 'class', 'import', 'is', 'if', 'else', 'for', 'while', 'del',
+              'print', 'exec', 'eval', 'object', 'super', 'init', 'new', 'call', 'hash', 'repr', 'exception', 'error')
+# function names out of the same vocabulary (not the ones the standard library registers as FUNCTIONS: calling them where
+# no def() is visible is a call of the library function, which is outside the fragment)
+LIBRARY_FUNCTIONS = ('len', 'list', 'dict', 'set', 'str', 'int', 'bool', 'let', 'with', 'def', 'any', 'all', 'call',
+                     'lambda', 'print', 'hash', 'type', 'get', 'items', 'keys', 'values', 'index', 'count', 'limit',
+                     'iter', 'next', 'is', 'new', 'super', 'object', 'repr', 'eval', 'exec', 'init', 'id', 'error')
+FUNC_HOST = tuple(n for n in HOST_NAMES if n.rstrip('_') not in LIBRARY_FUNCTIONS)
 # names no keyword can spell (they reach a context through unpack('..'), whose names are strings): the language reference
 # says that variable names "may start with digit, any number of underscores and even be an empty string"
 LEX_NAMES = ('__x', '1a', '2', '', '_', '$y', '__')
@@ -42,10 +61,19 @@ STRS = ('a', 'b', 'x', 'yz', 'n')
 REC_ITEM = ('rec', (('n', 'str'), ('v', 'int'), ('tags', ('list', 'int'))))
 REC_SUB = ('rec', (('a', 'int'), ('xs', ('list', 'int'))))
 REC_ODD = ('rec', (('my_key', 'int'), ('myKey', 'int'), ('k_', 'str'), ('K', 'int')))
+REC_HOST = ('rec', (('value', 'int'), ('self', 'str'), ('key', 'int'), ('default', 'int'), ('args', ('list', 'int')),
+                    ('values', 'int'), ('kwargs', 'str')))
 DOC_FIELDS = (('a', 'int'), ('b', 'int'), ('s', 'str'), ('flag', 'bool'), ('xs', ('list', 'int')),
               ('ws', ('list', 'str')), ('items', ('list', REC_ITEM)), ('sub', REC_SUB), ('opt', 'any'),
               ('unit_price', 'int'), ('unitPrice', 'int'), ('a_', 'int'), ('A', 'int'), ('odd', REC_ODD),
-              ('odds', ('list', REC_ODD)), ('len', 'int'))
+              ('odds', ('list', REC_ODD)), ('len', 'int'), ('value', 'int'), ('name', 'str'), ('data', ('list', 'int')),
+              ('host', REC_HOST), ('hosts', ('list', REC_HOST)), ('mix', ('list', 'any')), ('context', 'any'))
+# values that are EQUAL for the host language (1 == True == 1.0, 0 == False == 0.0 == -0.0, one dict key, one cache entry)
+# or alike for its truth test ('' / null / [] / {} / 0) although they are different values of the language
+EQUIV = ((1, True, 1.0), (0, False, 0.0), (0, False, 0.0, -0.0), (1, True, 1.0, 1), (None, '', 0, False), (2, 2.0), (1, 1.0),
+         (0, 0.0), (True, 1), (False, 0))
+ANY_LITS = (None, 1, 'a', True, 1.0, 0, False, 0.0, '', 1, True, None)
+ANY_LEAVES = (None, 1, 'a', None, True, 1.0, 0, False, 0.0, -0.0, '', 1)
 KEYWORD_RE = re.compile(r'(?!__)[^\W\d]\w*\Z')
 
 
@@ -60,6 +88,15 @@ def var_of(name):
 def name_arg(name):
     """a name as an argument: a keyword where a keyword can spell it (mostly), else a string literal"""
     return ['kw', name] if is_keyword(name) else ['lit', name]
+
+
+def value_lit(v):
+    """the expression denoting a scalar: `-0.0` is the negation of the literal `0.0`"""
+    if isinstance(v, float) and repr(v) == '-0.0':
+        return ['un', 'neg', ['lit', 0.0]]
+    if isinstance(v, int) and not isinstance(v, bool) and v < 0:
+        return ['un', 'neg', ['lit', -v]]
+    return ['lit', v]
 
 
 def is_keyword(s):
@@ -118,12 +155,12 @@ def gen_value(rng, t, dirty):
     if t == 'bool':
         return rng.random() < 0.5
     if t == 'any':
-        return rng.choice((None, 1, 'a', None))
+        return rng.choice(ANY_LEAVES)
     if is_list(t):
         n = rng.choice((0, 1, 2, 2, 3, 3, 4))
         out = [gen_value(rng, t[1], dirty) for _ in range(n)]
         if dirty and out and rng.random() < 0.25:
-            out[rng.randrange(len(out))] = rng.choice((None, 'q', True))
+            out[rng.randrange(len(out))] = rng.choice((None, 'q', True, 1.0, False, 0.0))
         return tuple(out)
     if is_rec(t):
         d = {}
@@ -137,7 +174,7 @@ def gen_value(rng, t, dirty):
 
 def gen_doc(rng):
     """(document as plain Python data with tuples for lists, its type)"""
-    k = rng.randint(3, len(DOC_FIELDS))
+    k = rng.randint(3, 16)
     fields = tuple(sorted(rng.sample(DOC_FIELDS, k), key=lambda p: DOC_FIELDS.index(p)))
     t = ('rec', fields)
     dirty = rng.random() < 0.3
@@ -180,6 +217,7 @@ class Gen:
         self.pool = set()                  # every variable name bound somewhere in the program
         self.fpool = set()                 # every function name defined somewhere in the program
         self.nfun = 0
+        self.salt = rng.randrange(len(EQUIV))
 
     # ------------------------------------------------------------ helpers
     def pick(self, options):
@@ -222,8 +260,10 @@ class Gen:
             rel = relatives(r.choice(bound))
             if rel:
                 n = r.choice(rel)
-        elif roll < 0.45:
+        elif roll < 0.42:
             n = r.choice(ODD_NAMES)
+        elif roll < 0.62:
+            n = r.choice(HOST_NAMES[:38] if r.random() < 0.7 else HOST_NAMES)
         if n is None:
             n = r.choice(NAMES)
         self.pool.add('$' + n)
@@ -232,10 +272,13 @@ class Gen:
     def name_pair(self):
         """two distinct names for a scenario: plain ones, or a pair that some normalisation would identify"""
         r = self.rng
-        if r.random() < 0.45:
+        roll = r.random()
+        if roll < 0.40:
             a, b = r.choice(RELATED_PAIRS)
             if r.random() < 0.5:
                 a, b = b, a
+        elif roll < 0.65:
+            a, b = r.sample(HOST_NAMES[:38] if r.random() < 0.7 else HOST_NAMES, 2)
         else:
             a, b = r.sample(NAMES, 2)
         self.pool.update(('$' + a, '$' + b))
@@ -244,10 +287,12 @@ class Gen:
     def fun_name(self):
         r = self.rng
         roll = r.random()
-        if roll < 0.68:
+        if roll < 0.60:
             name = FUNC_NAMES[self.nfun % len(FUNC_NAMES)]
-        elif roll < 0.90:
+        elif roll < 0.78:
             name = r.choice(FUNC_ODD)
+        elif roll < 0.92:
+            name = r.choice(FUNC_HOST)
         else:
             name = r.choice(FUNC_SNAKE)
         self.nfun += 1
@@ -264,7 +309,7 @@ class Gen:
         if t == 'bool':
             return ['lit', r.random() < 0.5]
         if t == 'any':
-            return ['lit', r.choice((None, 1, 'a', True))]
+            return ['lit', r.choice(ANY_LITS)]
         if is_list(t):
             return ['list', [self.lit(t[1]) for _ in range(r.choice((0, 1, 2, 3)))]]
         if is_rec(t):
@@ -275,7 +320,8 @@ class Gen:
         r = self.rng
         opts = ['int', 'int', 'str', 'bool', ('list', 'int'), ('list', 'int'), ('list', 'str')]
         if not simple:
-            opts += [('list', REC_ITEM), REC_SUB, REC_ITEM, 'any', REC_ODD, ('list', REC_ODD)]
+            opts += [('list', REC_ITEM), REC_SUB, REC_ITEM, 'any', REC_ODD, ('list', REC_ODD), REC_HOST, ('list', REC_HOST),
+                     ('list', 'any')]
         return r.choice(opts)
 
     # ------------------------------------------------------------ expressions
@@ -404,14 +450,22 @@ class Gen:
             return e
         return ['method', e, 'toList', [], []]
 
+    def raising_source(self, sc, d, n):
+        """a lazy sequence that raises at its element number n + 1, n + 2 or never (who consumes how much of it?)"""
+        r = self.rng
+        good = [self.expr('int', sc, d - 1) for _ in range(n)]
+        tail = r.choice(([], [['lit', 'a']], [['lit', 3], ['lit', None]], [['lit', 3], ['lit', 4], ['lit', 'a']]))
+        return ['method', ['list', good + tail], 'select', [['bin', 'add', ['var', '$'], ['lit', 1]]], []]
+
     def rec_with(self, sc, ft):
-        return self.rng.choice((REC_SUB, REC_SUB, REC_ODD))
+        return self.rng.choice((REC_SUB, REC_SUB, REC_ODD, REC_HOST))
 
     def rec_list_with(self, el):
         if el == 'int':
-            return self.rng.choice(((REC_ITEM, 'v'), (REC_SUB, 'a'), (REC_ODD, 'my_key'), (REC_ODD, 'myKey'), (REC_ODD, 'K')))
+            return self.rng.choice(((REC_ITEM, 'v'), (REC_SUB, 'a'), (REC_ODD, 'my_key'), (REC_ODD, 'myKey'), (REC_ODD, 'K'),
+                                    (REC_HOST, 'value'), (REC_HOST, 'key'), (REC_HOST, 'default'), (REC_HOST, 'values')))
         if el == 'str':
-            return self.rng.choice(((REC_ITEM, 'n'), (REC_ITEM, 'n'), (REC_ODD, 'k_')))
+            return self.rng.choice(((REC_ITEM, 'n'), (REC_ITEM, 'n'), (REC_ODD, 'k_'), (REC_HOST, 'self'), (REC_HOST, 'kwargs')))
         return None
 
     def missing_key(self):
@@ -469,6 +523,11 @@ class Gen:
         r = self.rng
         name, (params, _) = item
         args = [self.expr(p, sc, d - 1) for p in params]
+        if params and r.random() < 0.2:
+            # one of a class of values the host language takes for equal (1 / true / 1.0 ..): the class is fixed per
+            # function name, so that several calls of one function in a program get equal-but-different arguments
+            cls = EQUIV[(len(name) + len(params) + self.salt) % len(EQUIV)]
+            args[r.randrange(len(args))] = value_lit(r.choice(cls))
         kw = []
         roll = r.random()
         if roll < 0.15 and args:
@@ -522,20 +581,31 @@ class Gen:
             if r.random() < 0.12:                         # a length that need not fit
                 src = self.expr(('list', 'int'), sc, d - 1)
                 tys = ['int'] * len(tys)
+            elif r.random() < 0.08:                       # unpack(names) looks at len(names) + 1 elements of its source
+                src = self.raising_source(sc, d, len(tys))
+                tys = ['int'] * len(tys)
             binds = {var_of(nm): ty for nm, ty in zip(names, tys)}
             return ['arrow', ['method', src, 'unpack', [name_arg(nm) for nm in names], []], self.expr(t, sc.bind(binds), d - 1)]
         if kind == 'unpackpos':
             tys = [self.some_type(True) for _ in range(r.choice((1, 2)))]
             src = ['list', [self.expr(ty, sc, d - 1) for ty in tys]]
             binds = {'$%d' % (i + 1): ty for i, ty in enumerate(tys)}
+            if r.random() < 0.25:                         # unpack() without names consumes the WHOLE source
+                src = self.raising_source(sc, d, len(tys))
+                binds = {k: 'int' for k in binds}
             self.pool.update(binds)
             return ['arrow', ['method', src, 'unpack', [], []], self.expr(t, sc.bind(binds), d - 1)]
         if kind == 'def':
             name = self.fun_name()
-            params = [self.some_type(True) for _ in range(r.choice((0, 1, 1, 2)))]
+            params = [(self.some_type(True) if r.random() < 0.8 else 'any') for _ in range(r.choice((0, 1, 1, 2)))]
             ret = t if (r.random() < 0.6 and not is_rec(t)) else self.some_type(True)
             body_sc = self.lam_scope(sc, *params)          # the own name is visible too, but never called (no recursion)
             body = self.expr(ret, body_sc, d - 1)
+            if (t == 'any' or (is_list(t) and t[1] == ret)) and r.random() < 0.5:
+                # several calls of the one function side by side (every call evaluates the body on its own arguments)
+                sc2 = sc.define(name, (params, ret))
+                calls = [self.user_call((name, (params, ret)), sc2, d - 1) for _ in range(r.choice((2, 3)))]
+                return ['arrow', ['call', 'def', [['kw', name], body], []], ['list', calls]]
             return ['arrow', ['call', 'def', [['kw', name], body], []], self.expr(t, sc.define(name, (params, ret)), d - 1)]
         # toDict then a keyed read
         e, el = self.some_list(sc, d)
@@ -544,6 +614,61 @@ class Gen:
         body_sc = self.lam_scope(sc, el)
         td = ['method', e, 'toDict', [self.var('$1'), self.expr(t, body_sc, d - 1)], []]
         return ['method', td, 'get', [self.lit('str'), self.expr(t, sc, d - 1)], []]
+
+    # ------------------------------------------------------------ equal-but-differently-typed values
+    def equiv_values(self):
+        """the values of one class the host language takes for equal, shuffled, now and then one of them twice"""
+        r = self.rng
+        vals = list(r.choice(EQUIV))
+        r.shuffle(vals)
+        if r.random() < 0.4:
+            vals.insert(r.randrange(len(vals) + 1), r.choice(vals))
+        return vals[:4]
+
+    def equiv_source(self, sc, vals, wrap):
+        """a collection holding such values: a list literal, or the document's own `mix` list"""
+        t = sc.vars.get('$1')
+        if is_rec(t) and any(f == 'mix' for f, _ in t[1]) and self.rng.random() < 0.4:
+            return ['member', ['var', '$'], 'mix']
+        return ['list', [wrap(value_lit(v)) for v in vals]]
+
+    def revealing_body(self, p):
+        """a function / lambda body over the parameter `p` whose result tells 1 from true from 1.0"""
+        r = self.rng
+        one = ['var', '$']
+        return r.choice((
+            lambda: p,
+            lambda: ['list', [p]],
+            lambda: ['map', [[['kw', 'v'], p]]],
+            lambda: ['list', [p, ['bin', 'eq', p, ['lit', 1]]]],
+            lambda: ['method', ['list', [p]], 'select', [['list', [one]]], []],
+            lambda: ['list', [['method', ['list', [p]], 'select', [one], []]]],
+            lambda: ['bin', 'add', p, p],
+            lambda: ['bin', 'or', p, ['lit', 'dflt']],
+            lambda: ['list', [['un', 'not', p], p]],
+            lambda: ['index', ['list', [p, ['lit', 7]]], [['lit', 0]]],
+        ))()
+
+    def lazy_holder(self, p, sc, d):
+        """a list / dict built AROUND a lazy sequence that depends on `p` (whoever gets it consumes it once)"""
+        r = self.rng
+        xs = ['list', [p, ['lit', r.choice((2, 5))]]]
+        lazy = r.choice((
+            lambda: ['method', xs, 'select', [['bin', 'add', ['var', '$'], ['lit', 1]]], []],
+            lambda: ['method', xs, 'where', [['bin', 'gt', ['var', '$'], ['lit', 0]]], []],
+            lambda: ['method', xs, r.choice(('skip', 'take')), [['lit', 1]], []],
+            lambda: ['member', ['list', [['map', [[['kw', 'v'], p]]]]], 'v'],
+            lambda: ['method', ['method', xs, 'select', [['list', [['var', '$']]]], []], 'where', [['lit', True]], []],
+            lambda: ['method', self.expr(('list', 'int'), self.lam_scope(sc, 'int'), d - 1), 'where',
+                     [['bin', 'ge', ['var', '$'], ['lit', 1]]], []],
+        ))()
+        return r.choice((
+            lambda: ['list', [lazy]],
+            lambda: ['map', [[['kw', 'v'], lazy]]],
+            lambda: ['list', [['list', [lazy]]]],
+            lambda: ['list', [p, lazy]],
+            lambda: ['map', [[['kw', 'a'], p], [['kw', 'b'], ['list', [lazy]]]]],
+        ))()
 
     # ------------------------------------------------------------ scenario templates
     def scenario(self, sc, d):
@@ -554,7 +679,90 @@ class Gen:
         x = ['var', '$' + nm]
         x2 = ['var', '$' + nm2]
         xs = e(('list', 'int'))
-        k = r.randrange(20)
+        k = r.randrange(26)
+        if k in (20, 21, 22):
+            # every call of a def-ined function / application of a lambda evaluates the body on ITS OWN arguments: 1, true
+            # and 1.0 (0 / false / 0.0 / -0.0, '' / null / 0) are different values, whatever the host language's `==` says
+            vals = self.equiv_values()
+            wrap = r.choice((lambda a: a, lambda a: a, lambda a: ['list', [a]], lambda a: ['map', [[['kw', 'k'], a]]]))
+            if k == 21:     # a lambda applied to the elements of a collection
+                src = self.equiv_source(sc, vals, wrap)
+                c = value_lit(r.choice(vals))
+                return r.choice((
+                    lambda: ['method', src, 'select', [self.revealing_body(self.var('$1'))], []],
+                    lambda: ['method', src, 'toDict', [self.var('$1'), ['list', [self.var('$1')]]], []],
+                    lambda: ['method', src, 'where', [['bin', 'eq', self.var('$1'), c]], []],
+                    lambda: ['method', src, 'select', [['list', [self.var('$1'), ['bin', 'eq', self.var('$1'), c]]]], []],
+                    lambda: ['method', src, 'aggregate', [['list', [['var', '$1'], ['var', '$2']]], c], []],
+                    lambda: ['list', [['method', src, 'indexWhere', [['bin', 'eq', self.var('$1'), c]], []],
+                                      ['method', src, 'first', [], []], ['method', src, 'toList', [], []]]],
+                ))()
+            fn = self.fun_name()
+            use_kw = r.random() < 0.3
+            p = x if use_kw else self.var('$1')
+
+            def call(a, extra=()):
+                if use_kw:
+                    return ['call', fn, list(extra), [[['kw', nm], a]]]
+                return ['call', fn, [a] + list(extra), []]
+            if k == 22:     # recursion: the activations of the two top-level calls must not be mixed up
+                n = ['lit', r.choice((1, 2))]
+                if use_kw:
+                    rec = ['call', fn, [['bin', 'sub', ['var', '$1'], ['lit', 1]]], [[['kw', nm], p]]]
+                    body = ['list', [p, ['bin', 'and', ['bin', 'gt', ['var', '$1'], ['lit', 0]], rec]]]
+                else:
+                    rec = ['call', fn, [p, ['bin', 'sub', ['var', '$2'], ['lit', 1]]], []]
+                    body = ['list', [p, ['bin', 'and', ['bin', 'gt', ['var', '$2'], ['lit', 0]], rec]]]
+                tail = ['list', [call(wrap(value_lit(v)), [n]) for v in vals]]
+                return ['arrow', ['call', 'def', [['kw', fn], body], []], tail]
+            body = self.revealing_body(p)
+            tail = r.choice((
+                lambda: ['list', [call(wrap(value_lit(v))) for v in vals]],
+                lambda: ['list', [call(wrap(value_lit(v))) for v in vals]],
+                lambda: ['method', self.equiv_source(sc, vals, wrap), 'select', [call(self.var('$1'))], []],
+                lambda: ['method', self.equiv_source(sc, vals, wrap), 'where', [['bin', 'eq', call(self.var('$1')), self.var('$1')]], []],
+                lambda: ['list', [['method', self.equiv_source(sc, vals, wrap), 'select', [call(self.var('$1'))], []],
+                                  call(wrap(value_lit(vals[-1])))]],
+            ))()
+            return ['arrow', ['call', 'def', [['kw', fn], body], []], tail]
+        if k in (23, 24):
+            # a result that HOLDS a lazy sequence is built anew by every call: called twice with equal arguments, each
+            # result consumed
+            a = r.choice((lambda: ['lit', r.choice((1, 2, 3))], lambda: ['lit', r.choice((0, 1))], lambda: e('int')))()
+            b = r.choice((a, a, ['lit', 1], value_lit(1.0)))
+            if k == 24:     # ... by a lambda over a collection with equal elements
+                return ['method', ['list', [a, b, a][:r.choice((2, 3))]], 'select', [self.lazy_holder(self.var('$1'), sc, d)], []]
+            fn = self.fun_name()
+            body = self.lazy_holder(self.var('$1'), sc, d)
+            call = lambda v: ['call', fn, [v], []]                 # noqa: E731
+            tail = r.choice((
+                lambda: ['list', [call(a), call(b)]],
+                lambda: ['list', [call(a), call(b), call(a)]],
+                lambda: ['method', ['list', [a, b]], 'select', [call(self.var('$1'))], []],
+                lambda: ['list', [['method', call(a), 'len', [], []], call(a), call(b)]],
+            ))()
+            return ['arrow', ['call', 'def', [['kw', fn], body], []], tail]
+        if k == 25:         # names out of the host's own vocabulary as keyword arguments of a def-ined function / of let / dict
+            h1, h2 = r.sample(HOST_NAMES[:38] if r.random() < 0.8 else HOST_NAMES, 2)
+            self.pool.update(('$' + h1, '$' + h2))
+            v1, v2 = ['var', '$' + h1], ['var', '$' + h2]
+            fn = self.fun_name()
+            body = r.choice((lambda: ['list', [v1, v2, self.var('$1')]], lambda: ['bin', 'add', v1, ['lit', 1]],
+                             lambda: ['map', [[['kw', h1], v1], [['kw', h2], v2]]], lambda: v1))()
+            calls = [['call', fn, [], [[['kw', h1], e('int')]]],
+                     ['call', fn, [e('int')], [[['kw', h1], e('int')], [['kw', h2], e('str')]]],
+                     ['call', fn, [], [[['kw', h2], e('int')]]]]
+            r.shuffle(calls)
+            tail = r.choice((
+                lambda: ['list', calls[:r.choice((1, 2, 3))]],
+                lambda: ['method', xs, 'select', [['call', fn, [self.var('$1')], [[['kw', h1], ['lit', 10]]]]], []],
+                lambda: ['list', [calls[0], v1, ['arrow', ['call', 'let', [], [[['kw', h1], e('int')], [['kw', h2], e('int')]]], ['list', [v1, v2]]],
+                                  ['member', ['call', 'dict', [], [[['kw', h1], e('int')], [['kw', h2], e('int')]]], h1]]],
+            ))()
+            out = ['arrow', ['call', 'def', [['kw', fn], body], []], tail]
+            if r.random() < 0.3:
+                out = ['arrow', ['call', 'let', [], [[['kw', h1], e('int')]]], out]
+            return out
         if k == 14:     # names are data: two bindings whose names a normalisation would merge, and a third reading
             third = r.choice(relatives(nm) or [nm2])
             return ['arrow', ['call', 'let', [], [[['kw', nm], e('int')], [['kw', nm2], e('str')]]],
@@ -652,9 +860,9 @@ def program(rng, max_depth):
     sc = Scope({'$1': dt}, {})
     d = rng.randint(2, max_depth)
     roll = rng.random()
-    if roll < 0.25:
+    if roll < 0.30:
         return g.scenario(sc, min(d, 3)), doc, 'any'
-    if roll < 0.45:
+    if roll < 0.50:
         n = rng.choice((2, 3))
         return ['list', [g.expr('any', sc, d - 1) for _ in range(n)]], doc, ('list', 'any')
     t = g.some_type()
@@ -684,6 +892,10 @@ def render(e):
             if v < 0:
                 raise ValueError('negative literal')
             return str(v)
+        if isinstance(v, float):
+            if not (v >= 0 and repr(v) != '-0.0' and re.match(r'\d+\.\d+\Z', repr(v))):
+                raise ValueError('float literal %r' % (v,))
+            return repr(v)
         return quote(v)
     if t == 'kw':
         if e[1] in RESERVED:
@@ -718,7 +930,7 @@ def render_args(args, kw):
 
 def atom(e):
     s = render(e)
-    if e[0] in ('bin', 'un', 'arrow') or (e[0] == 'lit' and isinstance(e[1], int) and not isinstance(e[1], bool)):
+    if e[0] in ('bin', 'un', 'arrow') or (e[0] == 'lit' and isinstance(e[1], (int, float)) and not isinstance(e[1], bool)):
         return '(' + s + ')'
     return s
 
@@ -918,6 +1130,8 @@ def name_class(n):
         out.append('function-name')
     if not is_keyword(n):
         out.append('no-keyword')
+    if n in HOST_NAMES:
+        out.append('host-vocabulary')
     return out or ['plain']
 
 
@@ -953,6 +1167,70 @@ def name_classes(e, out=None):
     for c, _ in children(e):
         name_classes(c, out)
     return out
+
+
+def value_classes(e, doc):
+    """which of the equal-but-differently-typed value situations a program (with its document) contains (set)"""
+    out = set()
+
+    def scalars(v, acc):
+        if isinstance(v, dict):
+            for x in v.values():
+                scalars(x, acc)
+        elif isinstance(v, (tuple, list)):
+            for x in v:
+                scalars(x, acc)
+        else:
+            acc.append(v)
+        return acc
+
+    def mixed(vals):
+        vals = [v for v in vals if isinstance(v, (bool, int, float))]
+        return any(a == b and type(a) is not type(b) for i, a in enumerate(vals) for b in vals[i + 1:])
+    leaves = scalars(doc, [])
+    if any(isinstance(v, float) for v in leaves):
+        out.add('float in the document')
+    if any(isinstance(v, float) and repr(v) == '-0.0' for v in leaves):
+        out.add('-0.0 in the document')
+    if mixed(leaves):
+        out.add('equal values of different types in the document')
+    calls = {}
+
+    def lits_of(x, acc):
+        if x[0] == 'lit':
+            acc.append(x[1])
+        for c, _ in children(x):
+            lits_of(c, acc)
+        return acc
+
+    def walk(x):
+        if x[0] == 'lit' and isinstance(x[1], float):
+            out.add('float literal')
+        if x[0] == 'un' and x[1] == 'neg' and x[2] == ['lit', 0.0] and isinstance(x[2][1], float):
+            out.add('-0.0 literal')
+        if x[0] == 'list' and mixed([c[1] for c in x[1] if c[0] == 'lit']):
+            out.add('equal values of different types side by side in a list')
+        if x[0] == 'call' and fn_core(x[1]) not in _BUILTIN_NAMES:
+            calls.setdefault(fn_core(x[1]), []).append(lits_of(['list', x[2] + [v for _, v in x[3]]], []))
+        for c, _ in children(x):
+            walk(c)
+    walk(e)
+    for f, argl in calls.items():
+        if len(argl) > 1:
+            out.add('a def-ined function called several times')
+            flat = [tuple(a) for a in argl]
+            if any(mixed([a, b]) for x in argl for y in argl if x is not y for a in x for b in y):
+                out.add('... with equal arguments of different types')
+            if len(set(map(repr, flat))) < len(flat):
+                out.add('... twice with the same arguments')
+    return out
+
+
+_BUILTIN_NAMES = ('let', 'with', 'def', 'list', 'dict', 'len', 'any', 'all')
+
+
+def fn_core(name):
+    return name.rstrip('_')
 
 
 def shrink_candidates(e):
